@@ -6,6 +6,8 @@ props = [json.loads(l) for l in open(os.path.join(V, "properties.jsonl"))]
 ids = [p["id"] for p in props]
 
 CLAIMED = {
+ "C02": ("proof", "Lean: reachable-state invariant (ids distinct, lease consistency) and, for every record of every model run, C02.stepOK' (legal transition table per message, immutable identity fields, legal cause for every disappearance, error => no change beyond expired-lease release/prune, no duplicates); tie: mixed op-trace correspondence on memory and SQLite with full snapshots after every step", "§7 C02",
+         "Lean proof over the queue model + differential correspondence (memory, SQLite)"),
  "C03": ("proof", "Lean: every record of every model run satisfies C03.stepOK (fresh lease, attempt+1, only ready/expired messages, nothing else leased) + lease budget theorem; tie: op-trace correspondence on memory and SQLite with kept lease ids and boundary clocks", "§7 C03",
          "Lean proof over the queue model + differential correspondence (memory, SQLite)"),
  "C04": ("proof", "Lean: every lease-operation record of every model run satisfies C04.stepOK' (stale/foreign/expired/unknown/blank lease: conflict and no change beyond expired-lease release; live lease: exact effect on exactly that message; batch = per-id rule, first occurrence decides); tie: lease-profile traces that keep and replay every lease id ever issued", "§7 C04",
